@@ -2,6 +2,8 @@
 
 use crate::driver::{self, Campaign, Ctx, Evidence, Outcome, Tier};
 use crate::fmt::{FmtCampaign, Focus, OutcomeExhaustive};
+use crate::writer::oracle::Rule;
+use crate::writer::{gen_default, FaultTree, Seam, WriterCampaign};
 
 pub const ALL: &[&str] = &[
     "C01", "C02", "C03", "C04", "C05", "C06", "C07", "C08", "C09", "C10", "C11", "C12", "C13", "C14", "C15", "C16", "C17", "C18",
@@ -79,8 +81,64 @@ pub fn run(id: &'static str, tier: Tier, seed: u64) -> Option<Evidence> {
             c.report(&ev);
             Some(ev)
         }
+        "C05" | "C06" | "C07" | "C19" => Some(run_writer(id, tier, seed, &ctx, sh)),
         _ => None,
     }
+}
+
+fn writer_campaigns(id: &str) -> Vec<(WriterCampaign, u32, u32)> {
+    // (campaign, quick cases, thorough cases)
+    match id {
+        "C05" => vec![
+            (WriterCampaign::new("mlw-framing", Rule::Framing, Seam::Mlw, gen_default(40, false)), 50_000, 1_700_000),
+            (WriterCampaign::new("mlw-framing-tinycap", Rule::Framing, Seam::MlwTiny, gen_default(30, false)), 10_000, 300_000),
+            (WriterCampaign::new("spy-framing", Rule::Framing, Seam::Spy, gen_default(40, false)), 5_000, 170_000),
+            (WriterCampaign::new("spy-default-framing", Rule::Framing, Seam::SpyDefault, gen_default(12, false)), 1_000, 30_000),
+        ],
+        "C06" => vec![
+            (WriterCampaign::new("mlw-conservation", Rule::Conservation, Seam::Mlw, gen_default(40, false)), 35_000, 1_000_000),
+            (WriterCampaign::new("mlw-conservation-tinycap", Rule::Conservation, Seam::MlwTiny, gen_default(30, false)), 5_000, 200_000),
+            (WriterCampaign::new("spy-conservation", Rule::Conservation, Seam::Spy, gen_default(40, false)), 3_000, 100_000),
+            (WriterCampaign::new("client-spy-conservation", Rule::Conservation, Seam::ClientSpy, gen_default(40, false)), 5_000, 150_000),
+        ],
+        "C07" => vec![
+            (WriterCampaign::new("mlw-faults", Rule::Fault, Seam::Mlw, gen_default(30, true)), 50_000, 900_000),
+            (WriterCampaign::new("mlw-faults-tinycap", Rule::Fault, Seam::MlwTiny, gen_default(20, true)), 10_000, 100_000),
+            (WriterCampaign::new("spy-bounded-faults", Rule::Fault, Seam::SpyBounded, gen_default(30, true)), 5_000, 100_000),
+        ],
+        "C19" => {
+            let mut long = gen_default(200, false);
+            long.flush_weight = 1;
+            vec![
+                (WriterCampaign::new("mlw-greedy", Rule::Greedy, Seam::Mlw, gen_default(40, false)), 25_000, 800_000),
+                (WriterCampaign::new("mlw-greedy-long", Rule::Greedy, Seam::Mlw, long), 10_000, 500_000),
+                (WriterCampaign::new("mlw-greedy-tinycap", Rule::Greedy, Seam::MlwTiny, gen_default(30, false)), 3_000, 100_000),
+                (WriterCampaign::new("spy-greedy", Rule::Greedy, Seam::Spy, long), 2_000, 100_000),
+            ]
+        }
+        _ => vec![],
+    }
+}
+
+fn run_writer(id: &'static str, tier: Tier, seed: u64, ctx: &Ctx, sh: u32) -> Evidence {
+    let (level, rule) = match id {
+        "C05" => ("exploration", "generated (capacity incl. 0/1/|term|+-1/exact-fit, terminator, history of emits with lengths clustered at exact fit / one off / 0 / up to 2x capacity and contents containing the terminator bytes, explicit flushes, final drop); every underlying write is matched by FIFO position against the accepted-and-unwritten metrics: whole lines within capacity, or the lone oversized metric. Non-trivial: >=1 automatic flush AND (an exact-fit metric or an oversized bypass); distinct by case hash."),
+        "C06" => ("exploration", "same histories; conservation rules: Ok = byte length, exactly once and byte for byte, buffered metrics in emit order, oversized within own emit, flush Ok => nothing pending, second flush writes nothing, drop flushes the rest; seams: MultiLineWriter over a recording writer, buffered spy sink, StatsdClient::flush over the buffered spy sink (queuing wrapper: see campaign queue-flush). Non-trivial: >=2 automatic flushes followed by an explicit flush or drop with data pending; distinct by case hash."),
+        "C07" => ("fault_enumeration", "histories x fault scripts over the underlying write attempts (all-or-nothing; 13 io::ErrorKinds incl. Interrupted; unique token per failure; consecutive failures; failures on the bypass path and during drop); fault rules of the trace oracle; bounded spy channel as a real injector. Thorough enumerates the whole fail/succeed tree (depth 10) for generated op lists. Non-trivial: >=1 failed call followed by a successful write carrying metrics accepted earlier; distinct by case hash."),
+        _ => ("exploration", "fault-free histories up to 200 emits; every write made during an emit must be forced (next metric+terminator does not fit, or the write carries the metric and exactly fills the capacity), an emit that fits writes nothing, flush/drop carry everything pending in one datagram (=> datagram count equals in-order first-fit packing). Non-trivial: >=3 automatic flushes; distinct by case hash."),
+    };
+    let ev = Evidence::new(id, level, tier, seed, rule);
+    for (c, q, t) in writer_campaigns(id) {
+        if !driver::run_random(&c, &ev, ctx, scale(tier.pick(q, t)), sh) {
+            return ev;
+        }
+    }
+    if id == "C07" {
+        let ft = FaultTree { depth: 10 };
+        driver::run_random(&ft, &ev, ctx, scale(tier.pick(150, 3_000)), sh);
+        ev.set_exhaustive(false);
+    }
+    ev
 }
 
 /// Replay one stored case. Returns Ok(outcome) or Err(decoding problem).
@@ -99,5 +157,11 @@ pub fn replay(id: &'static str, campaign: &str, case: &serde_json::Value, tier: 
     try_camp!(FmtCampaign::new("fmt-outcome", Focus::Outcome));
     try_camp!(FmtCampaign::new("fmt-decor", Focus::Decor));
     try_camp!(OutcomeExhaustive::new());
+    for pid in ["C05", "C06", "C07", "C19"] {
+        for (c, _, _) in writer_campaigns(pid) {
+            try_camp!(c);
+        }
+    }
+    try_camp!(FaultTree { depth: 10 });
     Err(format!("unknown campaign '{}'", campaign))
 }
